@@ -81,6 +81,16 @@ def handle (op : String) (args0 : List String) : Option String := do
       match bowyerWatson id pts with
       | none => pure "panic"
       | some ts => pure (showTris (canonTris ts))
+  | "c20.super" => do              -- n pts  →  the six super-triangle coordinates, doubled (exact integers on integer input)
+      let (_, hex, _) ← takePoints args
+      let ds ← hex.mapM dyOfHex
+      let pts : List (Pt Rat) := pairUp (ds.map dyToRat)
+      match pts with
+      | [] => pure "empty"
+      | p :: ps =>
+        let out := (superTriangle p ps).flatMap (fun v => [v.1 * 2, v.2 * 2])
+        if out.all (fun q => q.den == 1) then pure (" ".intercalate (out.map (fun q => toString q.num)))
+        else pure "non-integer"
   | "c20.holds.vertices" => do     -- n pts k out(3k)
       let (_, hex, rest) ← takePoints args
       let k ← nat? (← rest.head?)
